@@ -47,6 +47,8 @@ type vc02FaultDS struct {
 
 	mu       sync.Mutex
 	failAt   map[int]bool
+	failQ    map[int]bool // 1-based indices of the element queries (set.Rmv / InSet) that return an error; only from a given input
+	nQuery   int
 	nCounted int
 	lastFail string   // kind of the last failed commit ("tombs" | "elems" | "heads"), reset by the caller
 	log      []string // kinds of counted commits, "!" appended when failed
@@ -69,7 +71,18 @@ func newVC02FaultDS(ns string, failAt []int) *vc02FaultDS {
 func (d *vc02FaultDS) Get(k ds.Key) ([]byte, error)              { return d.inner.Get(k) }
 func (d *vc02FaultDS) Has(k ds.Key) (bool, error)                { return d.inner.Has(k) }
 func (d *vc02FaultDS) GetSize(k ds.Key) (int, error)             { return d.inner.GetSize(k) }
-func (d *vc02FaultDS) Query(q query.Query) (query.Results, error) { return d.inner.Query(q) }
+func (d *vc02FaultDS) Query(q query.Query) (query.Results, error) {
+	if len(d.failQ) > 0 && strings.HasPrefix(q.Prefix, d.ns+"/s/s/") {
+		d.mu.Lock()
+		d.nQuery++
+		fail := d.failQ[d.nQuery]
+		d.mu.Unlock()
+		if fail {
+			return nil, errVC02Injected
+		}
+	}
+	return d.inner.Query(q)
+}
 func (d *vc02FaultDS) Put(k ds.Key, v []byte) error              { return d.inner.Put(k, v) }
 func (d *vc02FaultDS) Delete(k ds.Key) error                     { return d.inner.Delete(k) }
 func (d *vc02FaultDS) Sync(k ds.Key) error                       { return d.inner.Sync(k) }
